@@ -53,14 +53,19 @@ def type_infer(t, *, forbid_internal=True):
     def union(T1, T2):
         """Join temporary type variable T1 with T2."""
         # Compute the set of temporary type variables reachable from T2.
-        if is_internal_type(T2):
-            new_reach = reach[int(T2.name[2:])]
-        else:
-            new_reach = set()
-            for T in T2.get_stvars():
-                if is_internal_type(T):
-                    new_reach.add(int(T.name[2:]))
-                    new_reach.update(reach[int(T.name[2:])])
+        # Follow the current representatives, so that variables reachable
+        # through earlier unions are included.
+        new_reach = set()
+        todo = [T2]
+        while todo:
+            T = todo.pop()
+            for Tv in T.get_stvars():
+                if is_internal_type(Tv):
+                    k = int(Tv.name[2:])
+                    if k not in new_reach:
+                        new_reach.add(k)
+                        if uf[k] != Tv:
+                            todo.append(uf[k])
 
         # Update uf and reach, check for cycles in reach.
         for k, v in uf.items():
